@@ -273,7 +273,7 @@ FUNC_CHECKS = {
     "mosaik/scenario.py": {
         "World.__init__": "C03 C04 C09 C17 C14", "World.cache_triggering_ancestors": "C07 C05 C02",
         "World.connect_one": "C11 C03 C01 C02 C06 C10", "World.connect_async_requests": "C16 C06",
-        "World.connect": "C11 C16 C03", "World.get_data": "C14", "World.run": "C14 C06 C05 C17 C04",
+        "World.connect": "C11 C16 C03", "World.get_data": "C14", "World.run": "C10 C17 C14 C06 C05 C04",
         "World.shutdown": "C14", "World.start": "C15 C12 C14", "connect_interval": "C11 C01 C08 C02",
         "group_path": "C11 C01 C02", "parse_attrs": "C12", "update_min": "C05 C07 C06", "SimGroup": "C11 C01",
         "ModelMock": "C12 C11", "World.ensure_no_dataflow_cycles": "C06 C05", "World.set_initial_event": "C02",
@@ -298,8 +298,8 @@ def enclosing_functions(repo):
     out = {}
     for rel in FILES:
         tree = ast.parse(open(os.path.join(repo, rel)).read())
-        out[rel] = [(n.lineno, n.end_lineno, n.name) for n in ast.walk(tree)
-                    if isinstance(n, (ast.FunctionDef, ast.AsyncFunctionDef, ast.ClassDef))]
+        out[rel] = [(min([n.lineno] + [d.lineno for d in n.decorator_list]), n.end_lineno, n.name)
+                    for n in ast.walk(tree) if isinstance(n, (ast.FunctionDef, ast.AsyncFunctionDef, ast.ClassDef))]
     return out
 
 
@@ -363,6 +363,45 @@ def phase_checks():
         drop_worktree(wt)
 
 
+# Manual triage of the mutants that survive the suite and the quick checks (read against the source, DESIGN 10.6).
+# category -> {file: lines}
+TRIAGE = {
+    "dead code or unused attribute (rt_sleep is never called; started, supports_set_events, to_world_time, descent, "
+    "the trigger set in connect, sim_progress are never read)": {
+        "mosaik/scheduler.py": [183, 184, 185, 186, 188, 91, 32], "mosaik/simmanager.py": [433, 435, 445],
+        "mosaik/scenario.py": [131, 140, 518, 519, 268]},
+    "equivalent: the mutated guard or operation is redundant (guard repeated at the call site, edge added twice, "
+    "zero written where zero stands, branch gives the same value, key always present, extra wake-up or extra "
+    "progress update, first refusal subsumed by the second, self-step at `until` never taken, only .time of "
+    "last_step is read, initial data reaches the same memory through the buffer, unreachable raise, only three "
+    "simulator types exist)": {
+        "mosaik/scheduler.py": [465, 131, 171, 366], "mosaik/scenario.py": [429, 155, 337, 417, 137, 965, 323, 813],
+        "mosaik/tiered_time.py": [46, 50], "mosaik/in_or_out_set.py": [43, 52, 107], "mosaik/internal_util.py": [25],
+        "mosaik/simmanager.py": [479, 481, 700, 436], "mosaik/proxies.py": [87, 151, 213], "mosaik/util.py": [107]},
+    "diagnostics only (warnings, log lines, error texts, assert_graph, debug-mode assertions and execution-graph "
+    "edges, the `incomparable` assertion branches, success/debug flags for logging)": {
+        "mosaik/_debug.py": list(range(1, 400)), "mosaik/tiered_time.py": [71, 72, 75, 76, 79],
+        "mosaik/scenario.py": [363, 364, 376, 377, 378, 380, 432, 272, 690, 712, 714, 660],
+        "mosaik/scheduler.py": [279, 100, 351, 505], "mosaik/simmanager.py": [251]},
+    "outside the listed properties (platform / process start-up, greetings, duplicate simulator id, run() twice, "
+    "World.get_data after the run, failure during start, validation of rt_factor <= 0, non-serialisable inputs, "
+    "values returned by asynchronous get_data, *when* a slow run is reported, un-cancelled waiter tasks, "
+    "installing the loop as the current one, randomness of the distribution, unknown remote requests)": {
+        "mosaik/simmanager.py": [52, 201, 235, 246, 247, 248, 259, 261, 269, 270, 287, 150, 156, 501, 642, 653],
+        "mosaik/scenario.py": [56, 75, 244, 246, 247, 265, 306, 641, 566], "mosaik/scheduler.py": [46, 392, 393, 170],
+        "mosaik/util.py": [108, 86], "mosaik/proxies.py": [173, 174, 177, 179, 182]},
+    "the harness cannot run (World ignores asyncio_loop): every check exits 2 (harness error), no verdict": {
+        "mosaik/scenario.py": [261]},
+}
+
+
+def triage(m):
+    for cat, files in TRIAGE.items():
+        if m["line"] in files.get(m["file"], []):
+            return cat
+    return None
+
+
 def report():
     muts = load("mutants.json", [])
     filt = load("filter.json", {})
@@ -374,6 +413,7 @@ def report():
         if irrelevant(m):
             continue
         rows.append(dict(file=m["file"], line=m["line"], op=m["op"], old=m["old"], new=m["repl"], text=m["text"],
+                         triage=(triage(m) if c is not None and not c.get("killed_by") else None),
                          suite=f, killed_by=(c or {}).get("killed_by"),
                          rules=((c or {}).get("checks", {}).get((c or {}).get("killed_by") or "", {}) or {}).get("rules"),
                          checked=c is not None))
@@ -385,10 +425,14 @@ def report():
         of_those_killed_by_a_quick_check=sum(1 for r in rows if r["checked"] and r["killed_by"]),
         of_those_survived_all_quick_checks=sum(1 for r in rows if r["checked"] and not r["killed_by"]),
     )
+    from collections import Counter
+    cats = Counter((r["triage"] or "UNEXPLAINED")[:60] for r in rows if r["checked"] and not r["killed_by"])
+    summary["survivors_by_triage"] = dict(cats)
+    summary["killed_by_check"] = dict(Counter(r["killed_by"] for r in rows if r["killed_by"]))
     print(json.dumps(summary, indent=1))
     for r in rows:
-        if r["checked"] and not r["killed_by"]:
-            print(f"SURVIVOR {r['file']}:{r['line']} {r['op']} {r['old']!r}->{r['new']!r} | {r['text']}")
+        if r["checked"] and not r["killed_by"] and not r["triage"]:
+            print(f"UNEXPLAINED SURVIVOR {r['file']}:{r['line']} {r['op']} {r['old']!r}->{r['new']!r} | {r['text']}")
     json.dump(dict(summary=summary, rows=[r for r in rows if r["suite"] == "survived"]),
               open(os.path.join(VERIF, "seeded", "automutate.json"), "w"), indent=1)
 
